@@ -542,8 +542,179 @@ def h7_payload(n=3, timeout=120, **kw):
 
 
 # ------------------------------------------------------------------------------- replay
+# ------------------------------------------------------------------------------- H8 long, structured payloads (beyond the symbolic bounds) through the real filter pipeline
+def _pat(name, n):
+    if name == "zeros":
+        return bytes(n)
+    if name == "ramp":
+        return bytes(i % 256 for i in range(n))
+    if name == "ab":
+        return (b"ab" * (n // 2 + 1))[:n]
+    if name == "runs":                      # runs of growing length 1, 2, 3, .. 130, 1, ..
+        out, k, v = bytearray(), 1, 0
+        while len(out) < n:
+            out += bytes([v % 256]) * k
+            k, v = k % 130 + 1, v + 7
+        return bytes(out[:n])
+    x, out = 12345, bytearray()              # "noise": a linear congruential generator (fills the LZW table, defeats run-length coding)
+    for _ in range(n):
+        x = (x * 1103515245 + 12345) % (1 << 31)
+        out.append((x >> 16) & 255)
+    return bytes(out)
+
+
+def ref_rl(data):
+    """RunLengthDecode's inverse (ISO 32000-1 7.4.5): runs of 2..128 equal bytes, literal stretches of 1..128 bytes, EOD 128"""
+    out, i, n = bytearray(), 0, len(data)
+    while i < n:
+        j = i
+        while j + 1 < n and data[j + 1] == data[i] and j - i < 127:
+            j += 1
+        if j > i:
+            out += bytes([257 - (j - i + 1), data[i]])
+            i = j + 1
+            continue
+        j = i
+        while j + 1 < n and j - i < 127 and not (j + 2 < n and data[j + 1] == data[j + 2]):
+            j += 1
+        out += bytes([j - i]) + data[i:j + 1]
+        i = j + 1
+    return bytes(out) + b"\x80"
+
+
+def ref_lzw(data):
+    """PDF LZW (EarlyChange 1) with table clearing when the table is full; bit-packed, most significant bit first"""
+    codes, table, nxt, nbits, w = [(256, 9)], {bytes([i]): i for i in range(256)}, 258, 9, b""
+    for ch in data:
+        wc = w + bytes([ch])
+        if wc in table:
+            w = wc
+            continue
+        codes.append((table[w], nbits))
+        table[wc] = nxt
+        nxt += 1
+        if nxt + 1 > (1 << nbits) and nbits < 12:
+            nbits += 1
+        w = bytes([ch])
+        if nxt >= 4094:                      # table full: clear
+            codes.append((256, nbits))
+            table, nxt, nbits = {bytes([i]): i for i in range(256)}, 258, 9
+    if w:
+        codes.append((table[w], nbits))
+        nxt += 1
+        if nxt + 1 > (1 << nbits) and nbits < 12:
+            nbits += 1
+    codes.append((257, nbits))
+    acc, nacc, out = 0, 0, bytearray()
+    for c, wd in codes:
+        acc, nacc = (acc << wd) | c, nacc + wd
+        while nacc >= 8:
+            out.append((acc >> (nacc - 8)) & 255)
+            nacc -= 8
+    if nacc:
+        out.append((acc << (8 - nacc)) & 255)
+    return bytes(out)
+
+
+def ref_a85(data):
+    out = bytearray()
+    for i in range(0, len(data), 4):
+        chunk = data[i:i + 4]
+        v = int.from_bytes(chunk + bytes(4 - len(chunk)), "big")
+        if v == 0 and len(chunk) == 4:
+            out += b"z"
+            continue
+        digs = []
+        for _ in range(5):
+            v, r = divmod(v, 85)
+            digs.append(r + 33)
+        out += bytes(digs[::-1])[:len(chunk) + 1]
+        if (i // 4) % 15 == 14:
+            out += b"\n"
+    return bytes(out) + b"~>"
+
+
+def ref_png(data, colors, columns, fts=(0, 1, 2, 3, 4)):
+    bpp, nb = colors, colors * columns
+    rows = [data[i:i + nb] for i in range(0, len(data) - len(data) % nb, nb)]
+    out, prev = bytearray(), bytes(nb)
+
+    def paeth(a, b, c):
+        p = a + b - c
+        pa, pb, pc_ = abs(p - a), abs(p - b), abs(p - c)
+        return a if pa <= pb and pa <= pc_ else (b if pb <= pc_ else c)
+    for k, row in enumerate(rows):
+        ft = fts[k % len(fts)]
+        out.append(ft)
+        for j, x in enumerate(row):
+            a = row[j - bpp] if j >= bpp else 0
+            b = prev[j]
+            c = prev[j - bpp] if j >= bpp else 0
+            out.append((x - [0, a, b, (a + b) // 2, paeth(a, b, c)][ft]) % 256)
+        prev = row
+    return bytes(out), b"".join(rows)
+
+
+LONG_CODECS = ["RunLengthDecode", "LZWDecode", "ASCII85Decode", "ASCIIHexDecode", "LZW+PNG", "A85+RL", "LZW+TIFF"]
+LONG_PATTERNS = ["zeros", "ramp", "ab", "runs", "noise"]
+LONG_SIZES = [0, 1, 2, 127, 128, 129, 255, 256, 257, 510, 512, 4000, 9000, 70000]
+
+
+def long_case(codec, pattern, size):
+    """(stream attributes, encoded payload, expected decoded bytes)"""
+    from pdfminer.psparser import LIT
+    data = _pat(pattern, size)
+    if codec == "RunLengthDecode":
+        return {"Filter": LIT(codec)}, ref_rl(data), data
+    if codec == "LZWDecode":
+        return {"Filter": LIT(codec)}, ref_lzw(data), data
+    if codec == "ASCII85Decode":
+        return {"Filter": LIT(codec)}, ref_a85(data), data
+    if codec == "ASCIIHexDecode":
+        return {"Filter": LIT(codec)}, data.hex().encode() + b">", data
+    if codec == "LZW+PNG":
+        enc, exp = ref_png(data, 3, 50)
+        return {"Filter": LIT("LZWDecode"), "DecodeParms": {"Predictor": 15, "Colors": 3, "Columns": 50}}, ref_lzw(enc), exp
+    if codec == "A85+RL":
+        return {"Filter": [LIT("ASCII85Decode"), LIT("RunLengthDecode")]}, ref_a85(ref_rl(data)), data
+    nb = 3 * 40
+    rows = [data[i:i + nb] for i in range(0, len(data) - len(data) % nb, nb)]
+    enc = b"".join(bytes((row[j] - (row[j - 3] if j >= 3 else 0)) % 256 for j in range(nb)) for row in rows)
+    return {"Filter": LIT("LZWDecode"), "DecodeParms": {"Predictor": 2, "Colors": 3, "Columns": 40}}, ref_lzw(enc), b"".join(rows)
+
+
+def long_check(ci, pi, si):
+    import pdfminer.pdftypes as pt
+    attrs, payload, exp = long_case(LONG_CODECS[ci], LONG_PATTERNS[pi], LONG_SIZES[si])
+    try:
+        got = pt.PDFStream(attrs, payload).get_data()
+    except Exception as e:
+        return "%s over %d bytes of %r raised %s: %s" % (LONG_CODECS[ci], LONG_SIZES[si], LONG_PATTERNS[pi], type(e).__name__, str(e)[:200])
+    if got != exp:
+        k = next((i for i in range(min(len(got), len(exp))) if got[i] != exp[i]), min(len(got), len(exp)))
+        return "%s over %d bytes of %r: decoded %d bytes, original %d bytes, first difference at byte %d" % (LONG_CODECS[ci], LONG_SIZES[si], LONG_PATTERNS[pi], len(got), len(exp), k)
+    return None
+
+
+def h8_long(timeout=300, part=None, **kw):
+    """payloads of 0 .. 70000 bytes in five patterns, encoded by reference encoders (run-length runs of every length up to 130, an LZW table that fills, widens to 12 bits and is cleared,
+    ASCII85 with z groups and line breaks, PNG rows cycling through all five filter types, chains of two filters) and decoded by the real PDFStream.get_data - concrete, selected by symbolic choices"""
+    import pdfminer.pdftypes as pt
+
+    def fn(ex):
+        ci, pi, si = ex.choice(len(LONG_CODECS), "codec"), ex.choice(len(LONG_PATTERNS), "pattern"), ex.choice(len(LONG_SIZES), "size")
+        r = long_check(ci, pi, si)
+        ex.require(r is None, r or "", ci=ci, pi=pi, si=si)
+
+    def conc(m, info):
+        return {"ci": info["ci"], "pi": info["pi"], "si": info["si"]}
+    return core.run_symx("H8_long", fn, [pt.PDFStream.decode], {"codecs": LONG_CODECS, "patterns": LONG_PATTERNS, "sizes": LONG_SIZES}, timeout, concretize=conc, part=part)
+
+
 def replay(harness, inp):
     import pdfminer.utils as u
+    if harness == "H8_long":
+        return long_check(inp["ci"], inp["pi"], inp["si"])
     if harness == "H1_png":
         try:
             out = u.apply_png_predictor(inp["pred"], inp["colors"], inp["columns"], inp["bpc"], inp["data"])
@@ -636,7 +807,7 @@ GEOMS_T = [(c, w, 8) for c in (1, 2, 3, 4) for w in (1, 2, 3)] + [(1, 8, 1), (1,
 
 
 def jobs(tier):
-    J = [Job("H1_paeth", "h1_paeth", {}, 60)]
+    J = [Job("H1_paeth", "h1_paeth", {}, 60)] + [Job("H8_long:%d" % k, "h8_long", {"part": [k, 4, 6]}, 300, "H8_long") for k in range(4)]
     if tier == "quick":
         for c, w, b in GEOMS_Q:
             J.append(Job("H1_png:c%dw%db%d:r2" % (c, w, b), "h1_png", {"colors": c, "columns": w, "bpc": b, "rows": 2}, 150, "H1_png"))
